@@ -1,5 +1,8 @@
 """Translator: grid/coulomb.py + data/atomic_gauss_params.json
-   -> Gen/Coulomb.lean (closed forms) and Gen/CoulombParams.lean (parameter table).
+   -> Gen/Coulomb.lean (closed forms), Gen/CoulombParams.lean (parameter table),
+      Gen/CoulombPotential.lean (`coulomb_potential`) and Gen/CoulombLoader.lean
+      (`load_atomic_gaussian_params`); the last two are translated statement by statement by
+      `coulomb_py.py` (see its docstring), all four are written by `generate()` below.
 
 `coulomb_gaussian_s` / `coulomb_gaussian_p` are *parsed* (ast) and every statement is
 carried over one by one into a generic-`K` Lean `def`:
@@ -32,11 +35,11 @@ from decimal import Decimal
 from fractions import Fraction
 
 from ..common import SRC
+from . import coulomb_py
 from .util import HEADER, write_if_changed
 
 
-class Unsupported(ValueError):
-    pass
+Unsupported = coulomb_py.Unsupported
 
 
 FUNCS = [("coulomb_gaussian_s", "coulombGaussianS"), ("coulomb_gaussian_p", "coulombGaussianP")]
@@ -255,6 +258,9 @@ def translate_source(src: str) -> str:
     return "\n".join(parts)
 
 
+KEYS = ("coeffs_s", "alphas_s")  # keys of one JSON entry, in the order of the triple `(symbol, ·, ·)` of `table`
+
+
 def _dec(d: Decimal) -> tuple[int, int]:
     if not isinstance(d, Decimal) or not d.is_finite():
         raise Unsupported(f"table entry {d!r} is not a finite decimal")
@@ -273,9 +279,9 @@ def params_table():
         raise Unsupported("JSON root is not an object")
     rows = []
     for sym, ent in data.items():
-        if not isinstance(ent, dict) or "coeffs_s" not in ent or "alphas_s" not in ent:
-            raise Unsupported(f"entry {sym}: keys {list(ent) if isinstance(ent, dict) else ent!r}")
-        rows.append((sym, [_dec(x) for x in ent["coeffs_s"]], [_dec(x) for x in ent["alphas_s"]]))
+        if not isinstance(ent, dict) or list(ent) != list(KEYS):
+            raise Unsupported(f"entry {sym}: keys {list(ent) if isinstance(ent, dict) else ent!r}, expected {list(KEYS)}")
+        rows.append((sym, [_dec(x) for x in ent[KEYS[0]]], [_dec(x) for x in ent[KEYS[1]]]))
     return rows
 
 
@@ -318,6 +324,41 @@ def generate():
         cur += it + ", "
     lines.append(cur.rstrip().rstrip(","))
     p.append("def elements : List (Nat × String) := [\n" + "\n".join(lines) + "]\n")
+    p.append("/-- The file as `json.load` returns it: symbol ↦ (key ↦ list of numbers), keys in file order. -/")
+    p.append("def json : List (String × List (String × List (Int × Int))) :=\n"
+             "  table.map fun e => (e.1, [(" + json.dumps(KEYS[0]) + ", e.2.1), (" + json.dumps(KEYS[1]) + ", e.2.2)])\n")
     p.append("end GridVerif.Gen.CoulombParams\n")
     c2, d2 = write_if_changed("CoulombParams.lean", "\n".join(p))
-    return (c1 or c2), (d1 + d2)[:6000]
+
+    tree = ast.parse(src)
+    coulomb_py.check_module_level(tree, {py for py, _ in FUNCS} | {"coulomb_potential", "load_atomic_gaussian_params"})
+    t3 = (
+        HEADER.format(name="coulomb", source="src/grid/coulomb.py (coulomb_potential)")
+        + "import GridVerif.Model.CoulombPy\nimport GridVerif.Gen.Coulomb\n\n"
+        + "set_option linter.unusedVariables false\n\n"
+        + "namespace GridVerif.Gen.CoulombPotential\nopen GridVerif GridVerif.Coulomb GridVerif.Gen.Coulomb\n\n"
+        + "variable {K : Type} [Add K] [Sub K] [Mul K] [Div K] [Neg K] [NatCast K] [Elem K]\n"
+        + "  [LT K] [LE K] [DecidableLT K] [DecidableLE K]\n\n"
+        + coulomb_py.translate_potential(tree)
+        + "\n\nend GridVerif.Gen.CoulombPotential\n"
+    )
+    c3, d3 = write_if_changed("CoulombPotential.lean", t3)
+
+    loader, cells = coulomb_py.translate_loader(tree)
+    t4 = (
+        HEADER.format(name="coulomb", source="src/grid/coulomb.py (load_atomic_gaussian_params, " + ", ".join(cells) + ")")
+        + "import GridVerif.Model.CoulombPy\nimport GridVerif.Gen.CoulombParams\n\n"
+        + "set_option linter.unusedVariables false\n\n"
+        + "namespace GridVerif.Gen.CoulombLoader\nopen GridVerif GridVerif.Coulomb\n\n"
+        + loader
+        + "\n\n/-- The outside world as the translator found it: `sym2num`/`num2sym` of `grid.utils` (checked to be\n"
+        + "inverse to each other) and the one resource it dumped into `Gen/CoulombParams.lean`. -/\n"
+        + "def env : LoaderEnv where\n"
+        + "  sym2num := CoulombParams.elements.map fun e => (e.2, e.1)\n"
+        + "  num2sym := CoulombParams.elements\n"
+        + "  readJson := fun pkg name =>\n"
+        + "    if pkg == \"grid.data\" && name == \"atomic_gauss_params.json\" then some CoulombParams.json else none\n"
+        + "\nend GridVerif.Gen.CoulombLoader\n"
+    )
+    c4, d4 = write_if_changed("CoulombLoader.lean", t4)
+    return (c1 or c2 or c3 or c4), (d1 + d2 + d3 + d4)[:6000]
